@@ -19,4 +19,9 @@ NoBatch(b)     == FALSE
 Emit == \/ OutFile = ""
         \/ hist' = hist
         \/ CSVWrite("%1$s", <<ToJson(hist')>>, OutFile)
+
+\* simulation mode (tlc -simulate): random walks of the model; a history is written when it is complete
+EmitDeep == \/ Len(hist) <= MaxOps
+            \/ OutFile = ""
+            \/ CSVWrite("%1$s", <<ToJson(hist)>>, OutFile)
 =============================================================================
